@@ -25,3 +25,16 @@ Fixpoint slice_loop {S : Type} (step : S -> N -> option (S * N)) (s : S) (data :
       end
     end
   end.
+
+(* while COND { BODY } over a carried state; None is a panic or exhausted fuel (the obligations
+   instantiate the fuel with a bound under which the loop provably ends) *)
+Fixpoint while_loop {S : Type} (fuel : nat) (cond : S -> option bool) (body : S -> option S) (s : S) : option S :=
+  match fuel with
+  | O => None
+  | Datatypes.S f =>
+    match cond s with
+    | None => None
+    | Some false => Some s
+    | Some true => match body s with None => None | Some s' => while_loop f cond body s' end
+    end
+  end.
